@@ -138,7 +138,7 @@ func c20Entries() []c20Entry {
 }
 
 func c20Hostile() []string {
-	base := []string{"'", "''", "\\", "\\'", "\"", ";", "--", "/*", "*/", "$1", "$$", "%s", "\x00", "\n", "’", "＇", "x' OR '1'='1", "x'; DROP TABLE g_vertices; --", "x\\'; --", "1 OR 1=1", "1; DROP TABLE users", "a/*b*/c", "$q$x$q$", "E'\\x27'", "plain2", "43"}
+	base := []string{"'", "''", "\\", "\\'", "\"", ";", "--", "/*", "*/", "$1", "$$", "%s", "\x00", "\n", "’", "＇", "x' OR '1'='1", "x'; DROP TABLE g_vertices; --", "x\\'; --", "1 OR 1=1", "1; DROP TABLE users", "a/*b*/c", "$q$x$q$", "E'\\x27'", "plain2", "43", "a-b", "a--b", "x-1_y", "a_b", "A.b"}
 	out := append([]string{}, base...)
 	for _, b := range base[:16] {
 		out = append(out, "pre"+b+"post")
@@ -218,6 +218,21 @@ func c20Exec(w *fw.Worker, c fw.Case) fw.Result {
 	}
 	detail := map[string]interface{}{"entry": cc.Entry, "client_string": client, "benign_string": entry.Benign, "benign_statements": view(benign), "statements": view(got)}
 	key := strings.Replace(cc.Entry, ".", ":", 1)
+	// psql call sites are keyed by whether the client string needs a quote character to show the
+	// defect: the recorded findings are breakouts of a quoted literal; a defect that shows
+	// without any quote (an identifier built from the string, say) is a different one
+	if strings.HasPrefix(key, "psql:") {
+		switch {
+		case strings.ContainsAny(client, "'’＇"):
+			key += ":quote"
+		case client != "" && client[0] >= '0' && client[0] <= '9':
+			key += ":noquote:leading-digit"
+		case strings.ContainsAny(client, " \n\t\x00"):
+			key += ":noquote:whitespace"
+		default:
+			key += ":noquote"
+		}
+	}
 	if len(got) == 0 {
 		// the call was refused before any statement was sent: that is safe
 		res.AddSet("outcomes", "refused-before-sql")
@@ -240,6 +255,14 @@ func c20Exec(w *fw.Worker, c fw.Case) fw.Result {
 	for i := range got {
 		bs, bl := model.SQLSkeleton(benign[i].Query)
 		gs, gl := model.SQLSkeleton(got[i].Query)
+		if strings.HasSuffix(cc.Entry, "name") {
+			// a graph name legitimately becomes part of table identifiers after '-' is replaced by '_'
+			san := func(x string) string { return strings.Replace(x, "-", "_", -1) }
+			if san(client) != "" {
+				bs = strings.Replace(bs, san(entry.Benign), "§", -1)
+				gs = strings.Replace(gs, san(client), "§", -1)
+			}
+		}
 		if bs != gs {
 			return fw.ViolatedR(key, fmt.Sprintf("%s: the client string %q changes the token structure of the statement: %s  (benign: %s)", cc.Entry, client, gq.Trunc(got[i].Query, 300), gq.Trunc(benign[i].Query, 200)), detail)
 		}
@@ -250,7 +273,12 @@ func c20Exec(w *fw.Worker, c fw.Case) fw.Result {
 					want = clientParts[p]
 				}
 			}
-			if j >= len(gl) || gl[j] != want {
+			// a literal is the client string where the benign run had the benign string, or unchanged
+			// (a second id of the same call); literals built from the string (sanitised table names) are
+			// covered by the skeleton check
+			derived := want == bl[j] && strings.Contains(bl[j], entry.Benign)
+			sanitised := strings.HasSuffix(cc.Entry, "name") && j < len(gl) && gl[j] == strings.Replace(client, "-", "_", -1) // the recorded sanitised graph name
+			if j >= len(gl) || (gl[j] != want && gl[j] != bl[j] && !derived && !sanitised) {
 				return fw.ViolatedR(key, fmt.Sprintf("%s: a literal does not decode to the client string %q: %s", cc.Entry, client, gq.Trunc(got[i].Query, 300)), detail)
 			}
 		}
